@@ -310,6 +310,10 @@ class SimRun(Engine):
                 asked.append(op)
             elif r < 0.75:
                 op = {"op": "applicable", "s": sid}
+                if ro.random() < 0.3:
+                    # the iterator is advanced `take` items, then SUSPENDED while the next `suspend_for` queries run (on
+                    # other states too), then drained: two walkers sharing one simulator
+                    op["take"], op["suspend_for"] = ro.randint(0, 2), ro.randint(1, 4)
                 ops.append(op)
                 asked.append(op)
             elif r < 0.85:
@@ -446,8 +450,33 @@ class SimRun(Engine):
                 return False
             return True
 
+        suspended = []   # [resume_at, iterator, items so far, state id, state]
+
+        def drain(i, only_due=True):
+            for ent in list(suspended):
+                if only_due and ent[0] > i:
+                    continue
+                suspended.remove(ent)
+                _, it_, items_, sid_, st_ = ent
+                rest = call(lambda: list(it_))
+                if not no_raise(rest, f"resumed get_applicable_actions({sid_})", i):
+                    continue
+                got_ = sorted((a.name, tuple(p.object().name for p in ps)) for a, ps in items_ + rest[1])
+                want_ = []
+                for an in sorted(W.actions):
+                    for ps in rs.ground_instances(an):
+                        r2 = call(sim.apply, st_, W.actions[an], [W.objects[o] for o in ps])
+                        if r2[0] == "ok" and r2[1] is not None:
+                            want_.append((an, tuple(ps)))
+                ctx.check("C02.applicable-set", got_ == sorted(want_),
+                          f"op {i}: get_applicable_actions({sid_}), suspended after {len(items_)} items while other queries "
+                          f"ran and then drained, gave {got_}; apply succeeds exactly on {sorted(want_)}",
+                          cls="applicable-set-suspended")
+                ctx.probe("iterator-suspended-and-drained")
+
         for i, op in enumerate(script["ops"]):
             ctx.op_index = i
+            drain(i)
             k = op["op"]
             if op.get("s") not in real or (k == "eq" and op.get("t") not in real):
                 continue
@@ -575,6 +604,20 @@ class SimRun(Engine):
                 ctx.ev(i, k, op["s"], op["a"], op["params"], "->", "state" if applied else "none",
                        ri_[1] if ok_i else ri_[1])
                 ctx.outcome(k, ("applied" if applied else "refused") + ("/amb" if amb else ""))
+            elif k == "applicable" and op.get("suspend_for") and not op.get("fault"):
+                it_ = sim.get_applicable_actions(st)
+                items_ = []
+                try:
+                    for _ in range(op.get("take", 0)):
+                        items_.append(next(it_))
+                except StopIteration:
+                    pass
+                except Exception as ex:
+                    ctx.fail("C02.answers", f"op {i}: get_applicable_actions({op['s']}) raised {type(ex).__name__}",
+                             cls=type(ex).__name__)
+                suspended.append([i + 1 + op["suspend_for"], it_, items_, op["s"], st])
+                ctx.ev(i, "applicable-suspended", op["s"], len(items_))
+                ctx.outcome(k, "suspended")
             elif k == "applicable":
                 res = call(lambda: list(sim.get_applicable_actions(st)))
                 if no_raise(res, f"get_applicable_actions({op['s']})", i):
@@ -645,6 +688,8 @@ class SimRun(Engine):
             if internal_failure_at is not None and judged_after_failure >= 3:
                 ctx.probe("three-judged-after-internal-failure")
             ctx.states.add(digest(state_key(model[op["s"]])))
+        ctx.op_index = len(script["ops"])
+        drain(len(script["ops"]), only_due=False)
         if c01:
             return interesting and ctx.judged > 6
         return (ctx.probes.get("three-judged-after-internal-failure", 0) > 0) or reasked >= 3
